@@ -288,7 +288,17 @@ var ruleLineThresholds = &core.Rule{ID: "R13.3", Min: 8,
 					pcall, _ = ci.(*ssa.Call)
 				}
 			}
-			if len(ints) != 2 || pcall == nil {
+			var flags []*ssa.Phi
+			for _, in := range hdr.Instrs {
+				if ph, ok := in.(*ssa.Phi); ok {
+					if bt, ok := ph.Type().Underlying().(*types.Basic); ok && bt.Kind() == types.Bool {
+						flags = append(flags, ph)
+					}
+				}
+			}
+			if len(ints) == 1 && len(flags) == 1 && pcall != nil {
+				ndjsonFlagForm(c, s, f, hdr, ints[0], flags[0], pcall)
+			} else if len(ints) != 2 || pcall == nil {
 				s.Und("NDJSON counters", c.Pos(f.Pos()), fmt.Sprintf("%d integer loop variables (need 2: lines, containers)", len(ints)))
 			} else {
 				// which counter is which: the one incremented unconditionally is "lines"
@@ -607,4 +617,109 @@ func errPathsCSV(err *ssa.Extract, f *ssa.Function) string {
 	}
 	walk(hdr, untested, true)
 	return why
+}
+
+// ndjsonFlagForm tabulates the NDJSON loop when the containers are remembered
+// in a bool ("an object or array line was seen") instead of being counted.
+func ndjsonFlagForm(c *core.Ctx, s *core.Sink, f *ssa.Function, hdr *ssa.BasicBlock, lines, flag *ssa.Phi, pcall *ssa.Call) {
+	tokEx := extractOf(pcall, 2)
+	var start *ssa.BasicBlock
+	for _, b := range f.Blocks {
+		if iff := core.IfOf(b); iff != nil && tokEx != nil && dependsOn(iff.Cond, pcall, 2) && start == nil {
+			start = b
+		}
+	}
+	jp := c.ByPath[core.PkgJSON].Types.Scope()
+	tokVal := func(name string) int64 {
+		k, _ := jp.Lookup(name).(*types.Const)
+		if k == nil {
+			return -1
+		}
+		v, _ := constant.Int64Val(k.Val())
+		return v
+	}
+	tObj, tArr := tokVal("TokObject"), tokVal("TokArray")
+	bad := ""
+	n := 0
+	if start == nil || tokEx == nil {
+		bad = "per-line update not evaluable: no branch on the first token"
+	}
+	for _, tok := range []int64{0, 2, 4, 8, 16, 32, 64, 128, 256} {
+		for _, fl := range []bool{false, true} {
+			if bad != "" {
+				break
+			}
+			ev := newEval(c)
+			ev.Env = fde.Env{lines: constant.MakeInt64(10), flag: constant.MakeBool(fl), tokEx: constant.MakeInt64(tok)}
+			exits, err := ev.Walk(start, start.Preds[0], func(b *ssa.BasicBlock) bool { return b == hdr }, 0)
+			if err != nil || len(exits) != 1 || exits[0].Stop != hdr {
+				bad = "per-line update not evaluable"
+				break
+			}
+			var nl int64
+			var nf bool
+			okv := true
+			for e, p := range hdr.Preds {
+				if p == exits[0].From {
+					v1, ok1 := exits[0].ValAt(ev, lines.Edges[e])
+					v2, ok2 := exits[0].ValAt(ev, flag.Edges[e])
+					if flag.Edges[e] == ssa.Value(flag) {
+						v2, ok2 = constant.MakeBool(fl), true
+					}
+					if !ok1 || !ok2 {
+						okv = false
+						continue
+					}
+					nl, _ = constant.Int64Val(v1)
+					nf = constant.BoolVal(v2)
+				}
+			}
+			if !okv {
+				bad = "per-line update not evaluable"
+				break
+			}
+			n++
+			isCont := tok == tObj || tok == tArr
+			if nl != 11 || nf != (fl || isCont) {
+				bad = fmt.Sprintf("a line whose first token is %d changes (lines, container seen) from (10, %v) to (%d, %v); expected (11, %v)", tok, fl, nl, nf, fl || isCont)
+			}
+		}
+	}
+	s.Check(bad == "", "NDJSON per-line counting", c.Pos(f.Pos()), fmt.Sprintf("%d (first token, flag) pairs tabulated: every line counts, object/array lines set the container flag, nothing clears it", n), bad)
+	// initial state
+	for e, p := range hdr.Preds {
+		if !hdr.Dominates(p) {
+			v, isC := core.ConstBool(flag.Edges[e])
+			s.Check(isC && !v && core.IsConstInt(lines.Edges[e], 0), "NDJSON counters start at zero", c.Pos(f.Pos()), "lines = 0, container seen = false", "the NDJSON counters do not start at (0, false)")
+		}
+	}
+	badT := ""
+	m := 0
+	for l := int64(0); l <= 3; l++ {
+		for _, fl := range []bool{false, true} {
+			ev := newEval(c)
+			ev.Env = fde.Env{lines: constant.MakeInt64(l), flag: constant.MakeBool(fl)}
+			for _, in := range hdr.Instrs {
+				if call, ok := in.(*ssa.Call); ok && core.IsBuiltin(&call.Call, "len") {
+					ev.Env[call] = constant.MakeInt64(0) // no more input
+				}
+			}
+			exits, err := ev.Walk(hdr, hdr.Preds[0], nil, 0)
+			if err != nil || len(exits) != 1 || exits[0].Ret == nil {
+				badT = fmt.Sprintf("final verdict not evaluable for lines=%d container=%v: %v", l, fl, err)
+				continue
+			}
+			v, ok := exits[0].ValAt(ev, exits[0].Ret.Results[0])
+			if !ok {
+				badT = "final verdict not constant"
+				continue
+			}
+			m++
+			want := l >= 2 && fl
+			if constant.BoolVal(v) != want {
+				badT = fmt.Sprintf("with %d lines and container seen=%v the verdict is %v; NDJSON needs at least two lines and one container", l, fl, constant.BoolVal(v))
+			}
+		}
+	}
+	s.Check(badT == "", "NDJSON acceptance thresholds", c.Pos(f.Pos()), fmt.Sprintf("%d (lines, container seen) pairs tabulated", m), badT)
 }
